@@ -47,7 +47,9 @@ def enum_member(desc, tier, seed):
                   [v for k, v in enumerate(a) if k not in cont], wit,
                   f'listed activeness {a}, decoded {list(ai)}', (desc.label, tuple(x)))
         archs.append(obs_arch(b, inst, True))
-    ctx.check('C04.distinct-rows-distinct-architectures', len(set(archs)) == len(archs), wit0,
+    from .decode import closures_identify
+    ident = closures_identify(desc)     # otherwise two options can give the same node set (see decode.closures_identify)
+    ctx.check('C04.distinct-rows-distinct-architectures', len(set(archs)) == len(archs) or not ident, wit0,
               f'{len(archs)} rows give {len(set(archs))} architectures', nt)
     got = set(archs)
     ctx.check('C04.every-architecture-enumerated', ref <= got, wit0,
@@ -90,7 +92,7 @@ def enum_member(desc, tier, seed):
                     af.append(obs_arch(b2, inst, True))
                 except Exception as e:  # noqa
                     ctx.check('C04.fixed-row-decodes', False, witf + [x], f'{type(e).__name__}: {e}', ntf)
-            ctx.check('C04.fixed-distinct-architectures', len(set(af)) == len(af), witf,
+            ctx.check('C04.fixed-distinct-architectures', len(set(af)) == len(af) or not ident, witf,
                       f'{len(af)} rows give {len(set(af))} architectures', ntf)
             try:
                 nvf = gp2.get_n_valid_designs(with_fixed=True)
@@ -378,9 +380,18 @@ def history_member(payload, tier, seed):
                 break
             got = snap(b, gp)
             if got != want:
-                diffs = [(g, w) for g, w in zip(got['decodes'], want['decodes']) if g != w][:2]
+                alld = [(g, w) for g, w in zip(got['decodes'], want['decodes']) if g != w]
+                diffs = alld[:2]
+                # names the situation "fast encoder, and every differing decode is of a vector that is not valid
+                # itself (a fresh processor corrects it to another vector)": the imputed neighbour then depends on
+                # what the imputation cache has seen; anything else keeps the default class
+                wclass = None
+                if enc == 'FAST' and alld and got['des_vars'] == want['des_vars'] and \
+                        all(len(w) > 2 and w[2] != 'raise' and tuple(float(v) for v in w[0]) != tuple(w[2]) for g, w in alld):
+                    wclass = 'imputed-vector-depends-on-imputation-cache|FAST'
                 ctx.check('C05.same-as-fresh-processor', False, wit,
-                          f'after the history the processor differs from a fresh one: {diffs or (got["des_vars"], want["des_vars"])}', nt)
+                          f'after the history the processor differs from a fresh one: {diffs or (got["des_vars"], want["des_vars"])}', nt,
+                          wclass=wclass)
                 break
             ctx.check('C05.same-as-fresh-processor', True, wit, '', nt)
     ctx.samples.append(dict(desc=desc.label, encoder=enc, histories=n_hist, depth=depth, ops=[list(map(str, o)) for o in ops[:6]]))
